@@ -97,6 +97,14 @@ func (x *Exec) generate() {
 	}
 	x.Entry = st.Clone()
 	x.setupGhostEntry(st)
+	x.opaquePure = map[string]bool{}
+	for _, c := range x.Case.Clauses {
+		if c.Kind == "opaque" {
+			for _, nm := range strings.Split(c.Text, ",") {
+				x.opaquePure[strings.TrimSpace(nm)] = true
+			}
+		}
+	}
 	// axioms about package-level state
 	for _, c := range x.P.Spec.Axioms {
 		aenv := x.topSpecEnv(st, True, true)
@@ -464,9 +472,9 @@ func solveOne(o *Obligation, opt Options) (SolverResult, *Query) {
 		}
 		var plan []attempt
 		if scalar {
-			plan = []attempt{{true, 2, 4}, {true, 102, 3}, {true, 0, 2}, {false, 0, 1}}
+			plan = []attempt{{true, 2, 4}, {true, 102, 3}, {true, 0, 2}, {false, 2, 3}, {false, 4, 3}, {false, 0, 1}, {false, 2002, 2}}
 		} else {
-			plan = []attempt{{false, 2, 4}, {false, 4, 3}, {false, 102, 3}, {false, 0, 1}, {false, 1000, 1}}
+			plan = []attempt{{false, 2, 4}, {false, 4, 3}, {false, 102, 3}, {false, 0, 1}, {false, 2002, 2}, {false, 2004, 2}, {false, 2000, 1}, {false, 1000, 1}}
 			if os.Getenv("GOVC_NOSINE") != "" {
 				plan = []attempt{{false, 0, 1}}
 			}
